@@ -178,7 +178,7 @@ func canonErrQuiet(err error) string {
 }
 
 func (c09) Run(tp *Tape, opt RunOpt) *RunOut {
-	out := &RunOut{Stats: map[string]int64{}}
+	out := &RunOut{prop: "C09", Stats: map[string]int64{}}
 	// ---- generate ----
 	nAtoms := 1 + tp.Draw(LaneWork, 3)
 	nThreads := 2 + tp.Draw(LaneWork, 4)
